@@ -305,6 +305,9 @@ func (f *frame) findLoops() bool {
 func posOfBlock(b *ssa.BasicBlock) int {
 	best := int(^uint(0) >> 1)
 	for _, in := range b.Instrs {
+		if _, isPhi := in.(*ssa.Phi); isPhi {
+			continue // a phi carries the position of the variable's declaration, which may precede the loop
+		}
 		if p := in.Pos(); p.IsValid() && int(p) < best {
 			best = int(p)
 		}
